@@ -498,6 +498,11 @@ def rule_g(ctx):
 
 def run(ctx):
   ctx.consult(*FILES)
+  from sa.rules import c12 as _c12
+  _before = len(ctx.obs)
+  _c12.rule_i(ctx)     # operators hand out DNAs whose lookups agree with their decisions
+  for o in ctx.obs[_before:]:
+    o.rule = 'C14.i'
   # operators re-align moved sub-trees through DNA.use_spec: its "already bound" shortcut
   # must be an identity test (C12.c#identity-shortcut, decided here as well)
   from sa.rules import c12 as _c12
